@@ -41,6 +41,10 @@ type Runner struct {
 	// every response is compared and the first difference is recorded in Divergence.
 	Mirrors    []*Node
 	Divergence string
+	// MirrorSkipAppHash: do not compare app hashes with the mirrors (for chains with different histories)
+	MirrorSkipAppHash bool
+	// MirrorMask, when set, is applied to both transcript lines before they are compared
+	MirrorMask func(string) string
 	// Halted is set when the application's validator set became empty: a consensus
 	// engine cannot continue from there (Tendermint rejects an empty validator set),
 	// so histories end at that point.
@@ -72,6 +76,9 @@ func (r *Runner) logf(f string, a ...interface{}) {
 // sameTail compares the last transcript line of a mirror with the primary's.
 func (r *Runner) sameTail(m *Node) bool {
 	a, b := r.N.Trace[len(r.N.Trace)-1], m.Trace[len(m.Trace)-1]
+	if r.MirrorMask != nil {
+		a, b = r.MirrorMask(a), r.MirrorMask(b)
+	}
 	if a != b {
 		r.Divergence = fmt.Sprintf("responses differ at height %d:\n  primary(%s): %s\n  mirror(%s):  %s", r.N.CurHeight+r.N.LastHeight*0, r.N.Name, trunc(a, 1500), m.Name, trunc(b, 1500))
 		return false
@@ -297,7 +304,7 @@ func (r *Runner) Finish() bool {
 	_, okc := n.Commit()
 	for _, m := range r.Mirrors {
 		m.Commit()
-		if !r.sameTail(m) {
+		if !r.MirrorSkipAppHash && !r.sameTail(m) {
 			return false
 		}
 	}
